@@ -66,11 +66,22 @@ pub fn run_replay(_ctx: &Ctx, file: &str) -> i32 {
             // that produced them and looking for the same signature again
             let prop = v["property"].as_str().unwrap_or("").to_string();
             let sig = v["signature"].as_str().unwrap_or("").to_string();
-            println!("replay of engine {:?}: re-running check {} and looking for signature {:?}", other, prop, sig);
+            println!(
+                "replay of engine {:?}: re-running check {} and looking for signature {:?}",
+                other, prop, sig
+            );
             println!("recorded: {}", v["summary"].as_str().unwrap_or(""));
             let code = run_check(_ctx, &prop);
-            let again = std::fs::read_to_string(file).ok().and_then(|t| serde_json::from_str::<Value>(&t).ok()).map(|w| w["signature"] == v["signature"]).unwrap_or(false);
-            println!("check exit code {}; replay file rewritten with the same signature: {}", code, again && code == 1);
+            let again = std::fs::read_to_string(file)
+                .ok()
+                .and_then(|t| serde_json::from_str::<Value>(&t).ok())
+                .map(|w| w["signature"] == v["signature"])
+                .unwrap_or(false);
+            println!(
+                "check exit code {}; replay file rewritten with the same signature: {}",
+                code,
+                again && code == 1
+            );
             code
         }
     }
@@ -97,12 +108,17 @@ pub fn u3() -> Universe {
 pub fn u_names() -> Universe {
     Universe::new(
         "U_names",
-        &["/a", "/ab", "/a.b", "/é", "/a/a", "/a/ab", "/a.b/é", "/é/a.b"],
+        &[
+            "/a", "/ab", "/a.b", "/é", "/a/a", "/a/ab", "/a.b/é", "/é/a.b",
+        ],
     )
 }
 
 pub fn u_names_small() -> Universe {
-    Universe::new("U_names_small", &["/a", "/ab", "/a.b", "/é", "/a/a", "/a.b/é"])
+    Universe::new(
+        "U_names_small",
+        &["/a", "/ab", "/a.b", "/é", "/a/a", "/a.b/é"],
+    )
 }
 
 pub fn alphabet(u: Universe, contents: &[&[u8]], append_cap: usize, composites: bool) -> Alphabet {
@@ -204,12 +220,22 @@ pub fn layerings(layer_bases: &[usize], lower_paths: &[String], full: bool) -> V
                 // quick: upper layer is empty, or only touches paths that some lower layer has too
                 // (shadowing files / split directories), or adds one new child next to lower ones
                 let upper = &layers[0];
-                upper.iter().all(|(p, _)| layers[1..].iter().any(|l| l.iter().any(|(q, _)| q == p)))
+                upper
+                    .iter()
+                    .all(|(p, _)| layers[1..].iter().any(|l| l.iter().any(|(q, _)| q == p)))
             };
             if keep {
                 out.push(InitSpec {
-                    label: layers.iter().map(|l| tree_label(l)).collect::<Vec<_>>().join(" over "),
-                    init: layers.iter().enumerate().map(|(i, l)| (layer_bases[i], l.clone())).collect(),
+                    label: layers
+                        .iter()
+                        .map(|l| tree_label(l))
+                        .collect::<Vec<_>>()
+                        .join(" over "),
+                    init: layers
+                        .iter()
+                        .enumerate()
+                        .map(|(i, l)| (layer_bases[i], l.clone()))
+                        .collect(),
                     model: Some(m),
                 });
             }
@@ -234,7 +260,9 @@ pub fn layerings(layer_bases: &[usize], lower_paths: &[String], full: bool) -> V
 /// under `Model::union_of_ext` (and not already type-consistent).
 pub fn mixed_type_layerings(n: usize, lower_paths: &[String]) -> Vec<InitSpec> {
     let bytes: [&[u8]; 4] = [b"u", b"l", b"m", b"n"];
-    let cands: Vec<Vec<Vec<(String, Node)>>> = (0..n).map(|i| trees_over(lower_paths, bytes[i.min(3)])).collect();
+    let cands: Vec<Vec<Vec<(String, Node)>>> = (0..n)
+        .map(|i| trees_over(lower_paths, bytes[i.min(3)]))
+        .collect();
     let mut out = vec![];
     let mut idx = vec![0usize; n];
     loop {
@@ -242,8 +270,19 @@ pub fn mixed_type_layerings(n: usize, lower_paths: &[String]) -> Vec<InitSpec> {
         if Model::union_of(&layers).is_none() {
             if let Some(m) = Model::union_of_ext(&layers) {
                 out.push(InitSpec {
-                    label: format!("mixed types: {}", layers.iter().map(|l| tree_label(l)).collect::<Vec<_>>().join(" over ")),
-                    init: layers.iter().enumerate().map(|(i, l)| (i, l.clone())).collect(),
+                    label: format!(
+                        "mixed types: {}",
+                        layers
+                            .iter()
+                            .map(|l| tree_label(l))
+                            .collect::<Vec<_>>()
+                            .join(" over ")
+                    ),
+                    init: layers
+                        .iter()
+                        .enumerate()
+                        .map(|(i, l)| (i, l.clone()))
+                        .collect(),
                     model: Some(m),
                 });
             }
@@ -293,8 +332,21 @@ pub fn run_spaces(ctx: &Ctx, spaces: Vec<TreeSpace>, lim: &Limits) -> (Vec<Stats
     (all, vio)
 }
 
-pub fn finish(ctx: &Ctx, info: &RunInfo, coverage: Value, assumptions: &[&str], violations: &[Violation]) -> i32 {
-    finish_counts(ctx, info, coverage, assumptions, violations, &Default::default())
+pub fn finish(
+    ctx: &Ctx,
+    info: &RunInfo,
+    coverage: Value,
+    assumptions: &[&str],
+    violations: &[Violation],
+) -> i32 {
+    finish_counts(
+        ctx,
+        info,
+        coverage,
+        assumptions,
+        violations,
+        &Default::default(),
+    )
 }
 
 pub fn finish_counts(
@@ -309,11 +361,22 @@ pub fn finish_counts(
     let mut cov = coverage;
     cov["violations_total"] = json!(counts.values().sum::<u64>().max(violations.len() as u64));
     cov["known_finding_entries_matched"] = json!(known);
-    write_evidence(info, cov, assumptions, ctx.t0.elapsed().as_secs_f64(), fresh);
+    write_evidence(
+        info,
+        cov,
+        assumptions,
+        ctx.t0.elapsed().as_secs_f64(),
+        fresh,
+    );
     if fresh > 0 {
         1
     } else {
-        println!("OK property={} tier={} ({:.1}s)", info.property, info.tier, ctx.t0.elapsed().as_secs_f64());
+        println!(
+            "OK property={} tier={} ({:.1}s)",
+            info.property,
+            info.tier,
+            ctx.t0.elapsed().as_secs_f64()
+        );
         0
     }
 }
